@@ -162,7 +162,7 @@ class PropertyCall:
         self.q, self.o = q, o
 
 
-SPEC_NAMES = {'TXT', 'ALL', 'SAME_ITEMS', 'MATCH', 'NOMATCH', 'UB', 'SORTED', 'SUFFIX', 'FRESH', 'ALLWS'}
+SPEC_NAMES = {'TXT', 'ALL', 'SAME_ITEMS', 'MATCH', 'NOMATCH', 'UB', 'SORTED', 'SUFFIX', 'FRESH', 'ALLWS', 'NEXTBY_PRED'}
 
 
 class ClosureEnv:
@@ -522,6 +522,18 @@ class Exec:
             if isinstance(item, STy):
                 return self.disj([item.z == W.tt(o) for o in W.subtypes(container)])
             raise OutsideSubset('in tokentype: %r' % (item,))
+        if isinstance(container, (set, frozenset)):
+            # membership in a set hashes the item: an unhashable object (list, dict, set, ...) raises TypeError.  The
+            # Dyn kind `Other` stands for arbitrary objects, some of which are unhashable.
+            h = getattr(self, 'maybe_unhashable', None)
+            if h is not None:
+                c = h(item, st)
+                if c is not None and smt.feasible(list(st.pc) + [c]):
+                    s_exc = st.fork()
+                    s_exc.assume(c)
+                    self.raise_on(s_exc, 'TypeError', 'unhashable type')
+                    st.assume(z3.Not(c))
+            return self.disj([self.eq(item, c, st) for c in sorted(container, key=repr)])
         if isinstance(container, (tuple, list)):
             return self.disj([self.eq(item, c, st) for c in container])
         if isinstance(container, LRef):
@@ -611,6 +623,15 @@ class Exec:
                     nxt.append((s2, acc + [v]))
             res = nxt
         return [(s, tuple(a)) for s, a in res]
+
+    def e_Set(self, node, st):
+        # a set display of constants: {None, 'upper', ...}.  Kept as a frozenset; `x in <set>` hashes x first.
+        vals = []
+        for e in node.elts:
+            if not isinstance(e, ast.Constant):
+                raise OutsideSubset('set display with non-constant elements')
+            vals.append(e.value)
+        return [(st, frozenset(vals))]
 
     def e_List(self, node, st):
         out = []
